@@ -357,7 +357,7 @@ func toEnvoyTLSSecret(name string, certInfo *credscontroller.CertInfo, proxy *mo
 	case *mesh.PrivateKeyProvider_Cryptomb:
 		crypto := pkpConf.GetCryptomb()
 		msg := protoconv.MessageToAny(&cryptomb.CryptoMbPrivateKeyMethodConfig{
-			PollDelay: durationpb.New(time.Duration(crypto.GetPollDelay().Nanos)),
+			PollDelay: durationpb.New(time.Duration(crypto.GetPollDelay().GetNanos())),
 			PrivateKey: &core.DataSource{
 				Specifier: &core.DataSource_InlineBytes{
 					InlineBytes: certInfo.Key,
@@ -386,7 +386,7 @@ func toEnvoyTLSSecret(name string, certInfo *credscontroller.CertInfo, proxy *mo
 	case *mesh.PrivateKeyProvider_Qat:
 		qatConf := pkpConf.GetQat()
 		msg := protoconv.MessageToAny(&qat.QatPrivateKeyMethodConfig{
-			PollDelay: durationpb.New(time.Duration(qatConf.GetPollDelay().Nanos)),
+			PollDelay: durationpb.New(time.Duration(qatConf.GetPollDelay().GetNanos())),
 			PrivateKey: &core.DataSource{
 				Specifier: &core.DataSource_InlineBytes{
 					InlineBytes: certInfo.Key,
